@@ -8,6 +8,14 @@ from .sym import SV, SymRaise, Unsupported, as_bool, cur, num, wrap
 from .tensor import T
 
 
+def _mkparam(data):
+    if not isinstance(data, T):
+        raise Unsupported("nn.Parameter of a non-tensor")
+    r = data.clone()
+    r.is_param = True
+    return r
+
+
 def _t(x):
     if isinstance(x, T):
         return x
@@ -201,7 +209,7 @@ def install(interp):
         table[n] = d
     nn_table = dict(
         Module=models._NN_MODULE,
-        Parameter=E("nn.Parameter"),
+        Parameter=CallableType("nn.Parameter", lambda data=None, requires_grad=True: _mkparam(data)),
         UninitializedBuffer=E("nn.UninitializedBuffer"),
         UninitializedParameter=E("nn.UninitializedParameter"),
         ModuleDict=CallableType("nn.ModuleDict", lambda init=None: models.ModuleDictV(init), bases=(models._NN_MODULE,)),
